@@ -591,6 +591,20 @@ def GFC.addAcquiring (g : GFC) (hits : Int) : GFC :=
   | .tbw w => .tbw { w with tokenInflight := i32add w.tokenInflight hits }
   | g => g
 
+/-- a round without a request: `hasEvent()` consumed the pending event, nothing else changes -/
+def tickQuiet (st : State) (c : Cache) (now : Int) : State :=
+  { st with clock := now, lastReq := none, cache := some { c with cnt := { c.cnt with event := false } } }
+
+/-- a round that sent a request for `hits` tokens: the wrapper afterwards is `g'`, the counter `cnt'` -/
+def tickSent (st : State) (c : Cache) (rm : Remote) (g' : GFC) (cnt' : Counter) (now hits : Int) : State :=
+  { st with clock := now, lastReq := some hits,
+            cache := some { c with remote := some { rm with fc := some g' }, cnt := cnt' } }
+
+/-- the acquire result `doAcquire` hands to `globalCounter.send` for the answer `a` to the request of `hits` tokens
+    built at `now` -/
+def tickReply (a : TickAnswer) (hits now : Int) : Reply :=
+  { hasReq := true, tokens := hits, accept := a.accept, limit := a.limit, err := a.err, rt := now }
+
 def step (st : State) : Op → Except String State
   | .schema s =>
     match st.cache with
@@ -666,33 +680,26 @@ def step (st : State) : Op → Except String State
         | some (.tbw _) => .ok { st with cache := some { c with cnt := { c.cnt with event := true } } }
         | _ => .ok st
   | .tick now ans =>
-    let st := { st with clock := now, lastReq := none }
     match st.cache with
-    | none => .ok st
+    | none => .ok { st with clock := now, lastReq := none }
     | some c =>
       match c.remote with
-      | none => .ok st
+      | none => .ok (tickQuiet st c now)
       | some rm =>
         match rm.fc with
-        | none => .ok st
+        | none => .ok (tickQuiet st c now)
         | some g =>
           match requestOf g c.cnt st.meter now with
-          | none => .ok { st with cache := some { c with cnt := { c.cnt with event := false } } }
+          | none => .ok (tickQuiet st c now)
           | some hits =>
-            let g1 := g.addAcquiring hits
             match ans with
-            | none =>
-              .ok { st with lastReq := some hits,
-                            cache := some { c with remote := some { rm with fc := some g1 }, cnt := { c.cnt with event := false } } }
+            | none => .ok (tickSent st c rm (g.addAcquiring hits) { c.cnt with event := false } now hits)
             | some a =>
-              match gfcSetLimit g1 c.loc.config st.meter
-                  { hasReq := true, tokens := hits, accept := a.accept, limit := a.limit, err := a.err, rt := now } with
+              match gfcSetLimit (g.addAcquiring hits) c.loc.config st.meter (tickReply a hits now) with
               | .error e => .error e
-              | .ok (g', b) =>
+              | .ok (g', _) =>
                 -- (`send` drops SetLimit's result: it only decides whether another event is raised 200 ms later)
-                .ok { st with lastReq := some hits, lastRet := if b then st.lastRet else st.lastRet,
-                              cache := some { c with remote := some { rm with fc := some g' },
-                                                     cnt := { event := false, lastSync := unixS now } } }
+                .ok (tickSent st c rm g' { event := false, lastSync := unixS now } now hits)
 
 /-- which limiter `GetOrDefault(name)` hands to a request -/
 inductive Choice | dflt | loc | remote
